@@ -6,6 +6,7 @@ import (
 	"encoding/hex"
 	"encoding/json"
 	"fmt"
+	"io"
 	"math"
 	"os"
 	"os/exec"
@@ -13,6 +14,7 @@ import (
 	"sort"
 	"strconv"
 	"strings"
+	"syscall"
 
 	"go.1password.io/spg"
 	"verif/harness/core"
@@ -37,11 +39,20 @@ type cliResult struct {
 	Status         int
 }
 
+// opgenStdin, when not nil, is what the next runOpgen call feeds to the
+// child's standard input through a pipe (for --file=/dev/stdin).
+var opgenStdin []byte
+
 func runOpgen(args []string, tapeHex string) cliResult {
 	cmd := exec.Command(os.Getenv("VERIF_OPGEN"), args...)
 	cmd.Env = append(os.Environ(), "VERIF_TAPE="+tapeHex)
 	var so, se bytes.Buffer
 	cmd.Stdout, cmd.Stderr = &so, &se
+	if opgenStdin != nil {
+		// an io.Reader that is not an *os.File makes os/exec use a pipe
+		cmd.Stdin = io.MultiReader(bytes.NewReader(opgenStdin))
+		opgenStdin = nil
+	}
 	err := cmd.Run()
 	st := 0
 	if err != nil {
@@ -331,6 +342,34 @@ func c17Words(c *core.Ctx, w wordsCase, dir string) {
 	var input []string
 	status2 := false
 	switch {
+	case strings.HasPrefix(w.File, "stdin:"):
+		// the same list arriving through a pipe on standard input
+		base := strings.TrimPrefix(w.File, "stdin:")
+		args = append(args, "--file=/dev/stdin")
+		input = cliFiles()[base]
+		b, _ := os.ReadFile(filepath.Join(dir, base))
+		opgenStdin = append([]byte{}, b...)
+	case strings.HasPrefix(w.File, "fifo:"):
+		// ... and through a named pipe
+		base := strings.TrimPrefix(w.File, "fifo:")
+		input = cliFiles()[base]
+		fifo := filepath.Join(dir, fmt.Sprintf("fifo-%d-%d", os.Getpid(), c.R.Counters["cli_runs"]))
+		os.Remove(fifo)
+		if err := syscall.Mkfifo(fifo, 0o600); err != nil {
+			c.Count("fifo_unavailable", 1)
+			return
+		}
+		defer os.Remove(fifo)
+		b, _ := os.ReadFile(filepath.Join(dir, base))
+		go func() {
+			// (blocks until opgen opens the pipe; a reader that never opens
+			// it leaves this goroutine parked, which is harmless)
+			if f, err := os.OpenFile(fifo, os.O_WRONLY, 0); err == nil {
+				f.Write(b)
+				f.Close()
+			}
+		}()
+		args = append(args, "--file="+fifo)
 	case w.File != "":
 		args = append(args, "--file="+filepath.Join(dir, w.File))
 		input = cliFiles()[w.File]
@@ -375,7 +414,7 @@ func c17Words(c *core.Ctx, w wordsCase, dir string) {
 	res := runOpgen(args, tapeHexOf(ws))
 	c.Count("executions", 1)
 	c.Count("cli_runs", 1)
-	rp := map[string]interface{}{"args": args, "tape": tapeHexOf(ws), "file_words": cliFiles()[w.File]}
+	rp := map[string]interface{}{"args": args, "tape": tapeHexOf(ws), "file_words": input, "file_via": w.File}
 	if status2 {
 		if res.Status != 2 {
 			c.Violation(key+" status", fmt.Sprintf("unknown list: status %d, expected 2", res.Status), rp)
@@ -453,12 +492,12 @@ func c17Run(c *core.Ctx) {
 			return
 		}
 	}
-	lists := []wordsCase{{List: ""}, {List: "words"}, {List: "syllables"}, {List: "nope"}, {File: "three.txt"}, {File: "dups.txt"}, {File: "twin.txt"}, {File: "empty.txt"}, {File: "one.txt"}, {File: "onedup.txt"}, {File: "percent.txt"}, {File: "longline.txt"}, {File: "longword.txt"}}
+	lists := []wordsCase{{List: ""}, {List: "words"}, {List: "syllables"}, {List: "nope"}, {File: "three.txt"}, {File: "dups.txt"}, {File: "twin.txt"}, {File: "empty.txt"}, {File: "one.txt"}, {File: "onedup.txt"}, {File: "percent.txt"}, {File: "longline.txt"}, {File: "longword.txt"}, {File: "stdin:three.txt"}, {File: "fifo:three.txt"}, {File: "stdin:longline.txt"}, {File: "fifo:dups.txt"}}
 	sizes := []string{"", "0", "1", "3"}
 	seps := []string{"", "hyphen", "space", "comma", "period", "underscore", "digit", "none"}
 	caps := []string{"", "none", "first", "all", "random", "one"}
 	if !c.Thorough() {
-		lists = []wordsCase{{List: ""}, {List: "syllables"}, {List: "nope"}, {File: "three.txt"}, {File: "dups.txt"}, {File: "twin.txt"}, {File: "empty.txt"}, {File: "one.txt"}, {File: "onedup.txt"}, {File: "percent.txt"}, {File: "longline.txt"}, {File: "longword.txt"}}
+		lists = []wordsCase{{List: ""}, {List: "syllables"}, {List: "nope"}, {File: "three.txt"}, {File: "dups.txt"}, {File: "twin.txt"}, {File: "empty.txt"}, {File: "one.txt"}, {File: "onedup.txt"}, {File: "percent.txt"}, {File: "longline.txt"}, {File: "longword.txt"}, {File: "stdin:three.txt"}, {File: "fifo:three.txt"}, {File: "stdin:longline.txt"}}
 		sizes = []string{"", "0", "3"}
 		seps = []string{"", "space", "digit", "none"}
 		caps = []string{"", "first", "random", "one"}
@@ -540,6 +579,7 @@ func init() {
 		var rp struct {
 			Args []string `json:"args"`
 			Tape string   `json:"tape"`
+			Via  string   `json:"file_via"`
 		}
 		json.Unmarshal(raw, &rp)
 		env, cleanup, err := c17Prepare("quick")
@@ -554,6 +594,12 @@ func init() {
 		for i, a := range rp.Args {
 			if strings.HasPrefix(a, "--file=") {
 				rp.Args[i] = "--file=" + filepath.Join(os.Getenv("VERIF_C17_DIR"), filepath.Base(a))
+				if k := strings.IndexByte(rp.Via, ':'); k > 0 {
+					// the list was delivered through a pipe: replay it on standard input
+					b, _ := os.ReadFile(filepath.Join(os.Getenv("VERIF_C17_DIR"), rp.Via[k+1:]))
+					opgenStdin = append([]byte{}, b...)
+					rp.Args[i] = "--file=/dev/stdin"
+				}
 			}
 		}
 		res := runOpgen(rp.Args, rp.Tape)
